@@ -129,7 +129,8 @@ def Find.succ : Find → Find
   | .found i => .found (i + 1)
   | f => f
 
-/-- `indexOfHead(index)`: first row that covers column `index` and whose cell there is nil.
+/-- `indexOfHead(index)` as it was before writes were numbered (kept for the pinned variant of the
+step): first row that covers column `index` and whose cell there is nil.
     for i, receives := range w.receives {
         if len(receives) <= index { continue }
         if receives[index] == nil { return i } }
@@ -142,6 +143,22 @@ def indexOfHead (index : Nat) : List Row → Find
       | none => .panic                                   -- index out of range
       | some none => .found 0
       | some (some _) => (indexOfHead index rest).succ
+
+/-- `indexOfHead(index, write)`: the row of write number `write`, if it covers column `index` and
+its cell there is nil.
+    for i, receives := range w.receives {
+        if w.writes[i] != write || len(receives) <= index { continue }
+        if receives[index] == nil { return i } }
+    return -1 -/
+def indexOfWrite (index write : Nat) : List Nat → List Row → Find
+  | _, [] => .notFound
+  | [], _ :: _ => .panic                                   -- w.writes[i] out of range
+  | w :: ws, row :: rest =>
+    if w ≠ write ∨ row.length ≤ index then (indexOfWrite index write ws rest).succ
+    else match row[index]? with
+      | none => .panic                                   -- index out of range
+      | some none => .found 0
+      | some (some _) => (indexOfWrite index write ws rest).succ
 
 /-- `receives := w.receives[head]; receives[index] = pck` (`none` = index out of range). -/
 def setCell (rows : List Row) (head index : Nat) (a : Fill) : Option (List Row) :=
@@ -156,14 +173,21 @@ structure W where
   /-- `Writer.linked`: number of successful `Link`s so far (the last generation handed out). -/
   linked : Nat := 0
   rows : List Row := []
+  /-- `Writer.writes`: `writes[j]` is the number of the write row j belongs to. -/
+  writes : List Nat := []
+  /-- `Writer.written`: number of accepted writes so far (the number the next one gets). -/
+  written : Nat := 0
   done : Bool := false
-  /-- `Reader.writers` (requests of this writer): the link generation recorded with each request
-  the reader still has to answer, oldest first. -/
-  pend : RId → List Nat := fun _ => []
+  /-- `Reader.writers` (requests of this writer): the link generation and the write number recorded
+  with each request the reader still has to answer, oldest first. -/
+  pend : RId → List (Nat × Nat) := fun _ => []
   closed : RId → Bool := fun _ => false
-  /-- The goroutines `go req.writer.receive(dropped, r, req.link)` spawned by `Reader.Close` that
-  have not run yet: the generation each carries, in the order of the requests. -/
-  drops : RId → List Nat := fun _ => []
+  /-- The goroutines `go req.writer.receive(dropped, r, req.link, req.write)` spawned by
+  `Reader.Close` that have not run yet: what each carries, in the order of the requests. -/
+  drops : RId → List (Nat × Nat) := fun _ => []
+  /-- Answers in flight: `Reader.Receive` has popped the request and released `r.mu` but
+  `(*Writer).receive` has not taken `w.mu` yet – the answer, the link generation, the write number. -/
+  flight : RId → List (Ans × Nat × Nat) := fun _ => []
 
 def W.init : W := {}
 
@@ -172,6 +196,8 @@ inductive Step where
   | unlink (r : RId)
   | write (v : Nat)
   | answer (r : RId) (a : Ans)
+  | pop (r : RId) (a : Ans)
+  | deliver (r : RId) (k : Nat)
   | closeR (r : RId)
   | deliverDrop (r : RId)
   | closeW
@@ -195,10 +221,11 @@ structure Out where
   deliv : List (RId × Nat) := []
   deriving DecidableEq, Repr
 
-/-- `(*Writer).receive(pck, reader, link)`.  `chk = true` is the code; `chk = false` is the code
-before the link-generation fix (the comparison `w.links[index] != link` did not exist), kept for
-`C01.pinned_relink_miscredit`. -/
-def receiveWith (chk : Bool) (m : W) (a : Ans) (r : RId) (link : Nat) : W × Out :=
+/-- `(*Writer).receive(pck, reader, link, write)`.  `chk = true` is the code; `chk = false` is the
+code before the link-generation fix and before writes were numbered (no comparison
+`w.links[index] != link`, the response goes to the oldest row still owing the reader), kept for
+`C01.pinned_relink_miscredit` and `C01.pinned_race_miscredit`. -/
+def receiveWith (chk : Bool) (m : W) (a : Ans) (r : RId) (link write : Nat) : W × Out :=
   if m.done then (m, { ret := .ok false }) else
   match indexOf r m.readers with
   | none => (m, { ret := .ok false })
@@ -207,7 +234,7 @@ def receiveWith (chk : Bool) (m : W) (a : Ans) (r : RId) (link : Nat) : W × Out
     | none => (m, { ret := .panic 3 })                     -- w.links[index] out of range
     | some l =>
       if chk && l != link then (m, { ret := .ok false }) else
-      match indexOfHead index m.rows with
+      match (if chk then indexOfWrite index write m.writes m.rows else indexOfHead index m.rows) with
       | .panic => (m, { ret := .panic 1 })
       | .notFound => (m, { ret := .ok false })
       | .found head =>
@@ -215,10 +242,11 @@ def receiveWith (chk : Bool) (m : W) (a : Ans) (r : RId) (link : Nat) : W × Out
         | none => (m, { ret := .panic 2 })
         | some rows =>
           if head = 0 then
-            ({ m with rows := (flush rows).1 }, { ret := .ok true, emits := (flush rows).2 })
+            ({ m with rows := (flush rows).1, writes := m.writes.drop (flush rows).2.length },
+             { ret := .ok true, emits := (flush rows).2 })
           else ({ m with rows := rows }, { ret := .ok true })
 
-abbrev receive (m : W) (a : Ans) (r : RId) (link : Nat) : W × Out := receiveWith true m a r link
+abbrev receive (m : W) (a : Ans) (r : RId) (link write : Nat) : W × Out := receiveWith true m a r link write
 
 /-- Column deletion of `Unlink` (with the guard of the fix). -/
 def eraseCol (i : Nat) (rows : List Row) : List Row :=
@@ -251,7 +279,8 @@ def stepWith (chk : Bool) (m : W) : Step → W × Out
       if m.links.length ≤ i then (m, { ret := .panic 4 })    -- w.links[i+1:] out of range
       else
       let rows := eraseCol i m.rows
-      ({ m with readers := m.readers.eraseIdx i, links := m.links.eraseIdx i, rows := (flush rows).1 },
+      ({ m with readers := m.readers.eraseIdx i, links := m.links.eraseIdx i, rows := (flush rows).1,
+                writes := m.writes.drop (flush rows).2.length },
        { ret := .ok true, emits := (flush rows).2 })
   | .write v =>
     if m.done then (m, { ret := .cnt 0 })
@@ -259,15 +288,29 @@ def stepWith (chk : Bool) (m : W) : Step → W × Out
     else if m.links.length < m.readers.length then (m, { ret := .panic 5 })   -- w.links[i] out of range
     else
       let acc := accepting m.closed m.readers
-      let m' := { m with pend := fun r => if r ∈ acc then m.pend r ++ (linkOf m r).toList else m.pend r }
+      let m' := { m with pend := fun r => if r ∈ acc then m.pend r ++ (linkOf m r).toList.map (·, m.written)
+                                       else m.pend r }
       if acc.length > 0 then
-        ({ m' with rows := m.rows ++ [newRow m.closed m.readers] },
+        ({ m' with rows := m.rows ++ [newRow m.closed m.readers], writes := m.writes ++ [m.written],
+                   written := m.written + 1 },
          { ret := .cnt acc.length, deliv := acc.map fun r => (r, v) })
       else (m', { ret := .cnt 0 })
   | .answer r a =>
     match m.pend r with
     | [] => (m, { ret := .ok false })
-    | g :: rest => receiveWith chk { m with pend := fun x => if x = r then rest else m.pend x } a r g
+    | g :: rest => receiveWith chk { m with pend := fun x => if x = r then rest else m.pend x } a r g.1 g.2
+  | .pop r a =>
+    match m.pend r with
+    | [] => (m, { ret := .ok false })
+    | g :: rest =>
+      ({ m with pend := fun x => if x = r then rest else m.pend x,
+                flight := fun x => if x = r then m.flight r ++ [(a, g.1, g.2)] else m.flight x },
+       { ret := .ok true })
+  | .deliver r k =>
+    match (m.flight r)[k]? with
+    | none => (m, { ret := .skip })
+    | some e =>
+      receiveWith chk { m with flight := fun x => if x = r then (m.flight r).eraseIdx k else m.flight x } e.1 r e.2.1 e.2.2
   | .closeR r =>
     if m.closed r then (m, { ret := .cnt 0 })
     else ({ m with closed := fun x => if x = r then true else m.closed x,
@@ -278,11 +321,11 @@ def stepWith (chk : Bool) (m : W) : Step → W × Out
     match m.drops r with
     | [] => (m, { ret := .skip })
     | g :: rest =>
-      let p := receiveWith chk { m with drops := fun x => if x = r then rest else m.drops x } Ans.dropped r g
+      let p := receiveWith chk { m with drops := fun x => if x = r then rest else m.drops x } Ans.dropped r g.1 g.2
       (p.1, { p.2 with ret := match p.2.ret with | .panic s => .panic s | _ => .unit })
   | .closeW =>
     if m.done then (m, { ret := .unit })
-    else ({ m with done := true, readers := [], links := [], rows := [] },
+    else ({ m with done := true, readers := [], links := [], rows := [], writes := [] },
           { ret := .unit, emits := m.rows.map fun _ => Resp.dropped })
 
 /-- One step of the code. -/
